@@ -112,6 +112,8 @@ def classify(reason):
     """known-finding classes (see known_findings.jsonl)"""
     if reason and "more than 200 local" in reason:
         return "c06:too-many-locals"
+    if reason and ("more than 200 C levels" in reason or "too many syntax levels" in reason):
+        return "c06:too-many-syntax-levels"
     return None
 
 
